@@ -343,7 +343,7 @@ func encSLEB(v int64, pad int) []byte {
 // ---------------------------------------------------------------------------
 // text
 
-const bomRune = '﻿'
+const bomRune = '\ufeff'
 
 // utf16Valid decodes whole 16 bit units; ok=false on lone surrogates or an odd byte count.
 func utf16Decode(b []byte, le bool) (string, bool) {
